@@ -952,7 +952,9 @@ class Bench:
             if info['margin_low'] < band:
                 status = 'dont_care' if status == 'must_accept' else status
             if info['margin_cap'] is not None and info['margin_cap'] < self.band_cap(nv) + self.band_fill(pre, 'L', solvent):
-                if info['margin_cap'] == 0 and unit == 'L' and self.is_fresh(t) and self.exact_ok(nv):
+                # (representable volumes before the fill as well as after it: the vessel's stored volume is the rounded sum of
+                # what it held, and a filler that is already present merges with its earlier portion in the model after)
+                if info['margin_cap'] == 0 and unit == 'L' and self.is_fresh(t) and self.exact_ok(nv) and self.exact_ok(pre):
                     self.stats['probe:exact_capacity_request'] += 1
                 else:
                     status = 'dont_care' if status == 'must_accept' else status
